@@ -1,6 +1,7 @@
 package main
 
 import (
+	"math/big"
 	"fmt"
 	"regexp"
 	"strings"
@@ -50,6 +51,16 @@ func fillObjects(d *wfDesc) string {
 		if ok && isZero(off) && len(e.Path) == 1 && e.Path[0] == iterTerm(S, l) && tr == d.DistOuter {
 			if al := objAlloc(d.Sum, root); al != nil && al.Loop == l && al.Len == ln {
 				d.DistInner, _ = intOf(ln)
+			}
+		}
+		// ... or row i is the i-th length-s window of ONE backing array of outer*s elements (disjoint rows)
+		if ok && len(e.Path) == 1 && e.Path[0] == iterTerm(S, l) && tr == d.DistOuter {
+			if w, isC := intOf(ln); isC && w > 0 && off == S.MulC(iterTerm(S, l), big.NewInt(w)) {
+				if al := objAlloc(d.Sum, root); al != nil && al.Loop == nil {
+					if tot, isT := intOf(al.Len); isT && tot == w*d.DistOuter {
+						d.DistInner = w
+					}
+				}
 			}
 		}
 	}
